@@ -58,6 +58,9 @@ type Repo struct {
 	StampFn func(old uint32) uint32
 	// LenientLength makes over-long reads return what is there instead of 0xCA.
 	LenientLength bool
+	// ReservationOnPartialOnly: the reservation ID is checked for reads at a non-zero offset only
+	// (all the specification requires); by default every partial read is checked.
+	ReservationOnPartialOnly bool
 }
 
 func NewRepo(recs []SDRRecord, ts uint32) *Repo {
@@ -157,6 +160,11 @@ func (r *Repo) Handle(ev *Event) (byte, []byte, bool) {
 		off, n := int(d[4]), int(d[5])
 		rq.ReqResv, rq.RecID, rq.Off, rq.Len = resv, id, d[4], d[5]
 		partial := off != 0 || n != 0xff
+		if r.ReservationOnPartialOnly {
+			// the reservation ID is only required for reads at a non-zero offset (33.12): this BMC
+			// ignores it otherwise
+			partial = off != 0
+		}
 		if partial && resv != r.Resv {
 			return fin(0xc5, nil)
 		}
